@@ -595,6 +595,8 @@ def run_property(pid, tier, rep):
     rep.assumptions += ["interleavings inside one job (numba kernels, cvxpy, CBC) are not modelled: the schedule space is whole jobs",
                         "CV^2 is passed to TLC as an exact rational approximation (denominator <= 1e9) of the float the library computes; a relative band of 1e-7 around ceil() is not judged"]
     if pid == "C05":
+        from . import pygamma
+        pygamma.run(tier, rep, pa)      # PyGamma.tla: the composed measure; TLC's scenarios run through the code with a scripted sampler
         run_c05(tier, rep, pa)
     else:
         run_c06(tier, rep, pa)
@@ -617,6 +619,9 @@ def main_subprocess(path):
 def replay(path, rep):
     d = json.loads(open(path).read())
     print(json.dumps(d["detail"], indent=1)[:6000])
+    if d.get("key", "").startswith("pygamma."):
+        from . import pygamma
+        pygamma.replay_scenario(d["detail"], rep)
 
 
 if __name__ == "__main__":
